@@ -8,6 +8,18 @@ BASELINE = ("cd /repo && env -u OTEL2PUML_VERIF /venv/bin/python -m pytest -ra -
 
 # id -> (category, technique, level text, level note, design ref)
 TABLE = {
+    "C08": ("proof",
+            "Coq theorems over an exact Gallina model of sequence_otel.py; in-kernel differential correspondence; documented-rule oracle as failing-input search",
+            "Universal Coq theorems for every span tree, mode and configuration about an exact Gallina model of the sequencer "
+            "(grouping by prior information, stable sorts, overlap sweep, recursive linking, rename pass): each span exactly once, "
+            "emission order topological, every span follows all its descendants, single start and start-order chain in synchronous "
+            "mode, async groups = connected components of the closed-interval overlap graph (sweep-line invariant), prior-information "
+            "classes, rename = documented rule under a stated side condition. The model is tied to /repo on every run by evaluating it "
+            "in coqc on the run's trees (exhaustive small trees on a grid + random up to 30 spans) and comparing with the PV events the "
+            "implementation emits, field by field.",
+            "Trusted: Coq kernel+vm_compute; hand-written model (tied by correspondence); harness; the documented-rule oracle is only "
+            "used to search for a failing input. Sibling ties in start time are modelled (stable sorts) but outside the property.",
+            "4/C08"),
     "C16": ("proof",
             "Coq theorems over a Flocq binary64 + calendar model; in-kernel differential correspondence",
             "Universal Coq theorems (every microsecond instant 1970..2100) about a bit-exact Gallina/Flocq model of both "
@@ -22,7 +34,7 @@ TABLE = {
 }
 
 # properties whose check is finished and quiet on the unchanged tree
-READY = set()
+READY = {"C08", "C16"}
 
 NOT_YET = {
 }
